@@ -35,7 +35,7 @@ import _sre
 
 from .core import AnalysisError
 from .gensem import gen_program
-from .objmodel import ClassModel, new_parser_state
+from .objmodel import ClassModel, model_attr, new_parser_state
 from .ordabs import Ev, ModelRaise, Obj
 from .relang import norm
 from .repo import Repo
@@ -184,7 +184,7 @@ def run_interpreter(cm: ClassModel, node: Obj, text: str, pos: int, where: str) 
         res = cm.call(node, "parse", state, [])
     except ModelRaise as err:
         return ("raises", str(err).split(":")[0])
-    return (bool(res), state.pos, state.furthest_pos if not res else None)
+    return (bool(res), state.pos, model_attr(cm, state, "furthest_pos") if not res else None)
 
 
 def emitted(cm: ClassModel, node: Obj) -> tuple[str, list[tuple[str, str]]]:
@@ -208,7 +208,7 @@ def run_generated(cm: ClassModel, src: str, consts: list[tuple[str, str]], text:
     except SyntaxError as err:
         raise AnalysisError(f"{where}: emitted code does not parse: {err.msg}") from err
     res = env.get("matched")
-    return (bool(res), state.pos, state.furthest_pos if not res else None)
+    return (bool(res), state.pos, model_attr(cm, state, "furthest_pos") if not res else None)
 
 
 def check_terminals(repo: Repo, where: str, thorough: bool = False) -> tuple[int, list[tuple[str, str, str]]]:
